@@ -476,16 +476,51 @@ def run(scenario, world):
             n_mech = max(1, pm.n_dim() - n_err(llspec))
             ll, mech, errs = build_ll(llspec, n_mech)
             check_ll(ll, vals, step, world, mech, errs)
+            # reconfiguration of the likelihood itself: fix, check, release
+            names_ll = ll.get_parameter_names()
+            for pos in op.get('fix', []):
+                nm = names_ll[pos % len(names_ll)]
+                r = call(ll.fix_parameters, {nm: vals[pos % len(vals)]})
+                if is_exc(r):
+                    fail('op.fix_likelihood', 'raises', '%r\n%s' % (r, r.tb),
+                         step)
+                if ll.n_parameters() >= 1:
+                    check_ll(ll, vals, step, world)
+                world.probe('likelihood_fixed_and_rechecked')
+            if op.get('fix') and op.get('release', True):
+                r = call(ll.fix_parameters, dict(
+                    (names_ll[pos % len(names_ll)], None)
+                    for pos in op['fix']))
+                if is_exc(r):
+                    fail('op.fix_likelihood', 'release_raises', '%r\n%s' % (
+                        r, r.tb), step)
+                check_ll(ll, vals, step, world, mech, errs)
             import pints
-            lp = chi.LogPosterior(ll, zoo.build_prior(
-                {'n': ll.n_parameters(), 'kind': 'lognormal'}))
-            check_named(lp, step, 'logpost')
+            if ll.n_parameters() >= 1:
+                lp = chi.LogPosterior(ll, zoo.build_prior(
+                    {'n': ll.n_parameters(), 'kind': 'lognormal'}))
+                check_named(lp, step, 'logpost')
             pred = chi.PredictiveModel(mech, errs)
             n, _ = check_named(pred, step, 'pred')
             s = call(pred.sample, _in_support(vals, n), [1.0, 2.0], 2, 1)
-            if is_exc(s):
+            if is_exc(s) and not ok_exc(s):
                 fail('pred.accepts_vector', 'raises', '%r\n%s' % (s, s.tb),
                      step)
+            names_p = pred.get_parameter_names()
+            for pos in op.get('fix', []):
+                r = call(pred.fix_parameters, {
+                    names_p[pos % len(names_p)]: vals[pos % len(vals)]})
+                if is_exc(r):
+                    fail('op.fix_predictive', 'raises', '%r\n%s' % (
+                        r, r.tb), step)
+                n, _ = check_named(pred, step, 'pred')
+                if n >= 1:
+                    s = call(pred.sample, _in_support(vals, n), [1.0, 2.0],
+                             2, 1)
+                    if is_exc(s) and not ok_exc(s):
+                        fail('pred.accepts_vector', 'raises_after_fix',
+                             'vector of length %d: %r\n%s' % (n, s, s.tb),
+                             step)
         elif o == 'compose_poppred':
             n_mech = pm.n_dim() - n_err(llspec)
             if n_mech < 1:
@@ -887,6 +922,11 @@ def _generate(rng, index, tier):
             op['front'] = rng.random() < 0.5
         elif o in ('compose_hier', 'compose_controller'):
             op['n_ids'] = rng.randint(1, 4)
+        elif o == 'compose_ll':
+            if rng.random() < 0.7:
+                op['fix'] = [rng.randint(0, 40)
+                             for _ in range(rng.randint(1, 3))]
+                op['release'] = rng.random() < 0.7
         elif o == 'compose_filter':
             op['n_samples'] = rng.randint(2, 4)
             ts = rng.sample([0.5, 1.0, 2.0, 3.0], rng.randint(1, 3))
